@@ -5,6 +5,7 @@ import (
 	"fmt"
 	"html"
 	"os"
+	"path/filepath"
 	"regexp"
 	"strconv"
 	"strings"
@@ -12,6 +13,7 @@ import (
 	"unicode/utf8"
 
 	textwire "github.com/textwire/textwire/v2"
+	"github.com/textwire/textwire/v2/config"
 )
 
 // A render case: one template source, a data map, and what the model says must come out.
@@ -165,6 +167,9 @@ func renderFamily(raw json.RawMessage) Result {
 		res.Status, res.Kind = "viol", "invalid-utf8"
 		res.Msg = fmt.Sprintf("valid UTF-8 input produced invalid UTF-8 output %q", out)
 	}
+	if res.Status == "ok" && os.Getenv("TWH_ALSO_TEMPLATE") != "" {
+		viaTemplate(&res, c, src, data)
+	}
 	if res.Status == "ok" && os.Getenv("TWH_PROP") == "C09" && rerr != nil {
 		// C09: errors raised during evaluation carry the line of the construct
 		res.Stats["nontrivial"] = 1
@@ -201,4 +206,46 @@ func registerShadows() {
 			textwire.RegisterBoolFunc(n, func(b bool, args ...any) bool { return !b })
 		}
 	})
+}
+
+// viaTemplate renders the same source as a template file through NewTemplate + (*Template).String and judges it with
+// the same expectation; for errors it also checks C13's path claim: the absolute path of the page's file.
+func viaTemplate(res *Result, c renderCase, src string, data map[string]any) {
+	root, err := setupTree([]treeFile{{Name: "page", Src: src}}, treeCfg{Dir: "t", Ext: ".tw"})
+	if err != nil {
+		res.Status, res.Msg = "skip", err.Error()
+		return
+	}
+	defer cleanupTree(root)
+	textwire.VerifReset()
+	res.Stats["via_template"] = 1
+	want := filepath.Join(root, "t", "page.tw")
+	tpl, lerr := textwire.NewTemplate(&config.Config{TemplateDir: "t", TemplateExt: ".tw"})
+	var out string
+	var rerr error
+	path := ""
+	if lerr != nil {
+		rerr = lerr
+		_, path, _ = errLinePath(lerr)
+	} else {
+		o, ferr := tpl.String("page", data)
+		out = o
+		if ferr != nil {
+			rerr = ferr.Error()
+			path = ferr.Filepath()
+		}
+	}
+	sub := Result{Status: "ok", Stats: map[string]int{}}
+	judgeRender(&sub, c.Expect, out, rerr)
+	if sub.Status != "ok" {
+		res.Status, res.Kind = sub.Status, sub.Kind
+		res.Msg = "as a template file through NewTemplate/String: " + sub.Msg
+		res.Tags = append(res.Tags, "via-template")
+		return
+	}
+	if rerr != nil && c.Expect.Kind == "err" && c.Expect.Line > 0 && path != want {
+		res.Status, res.Kind = "viol", "wrong-path"
+		res.Msg = fmt.Sprintf("as a template file: the error names %q, the construct is in %q", path, want)
+		res.Tags = append(res.Tags, "via-template")
+	}
 }
